@@ -205,7 +205,9 @@ MeanInHull == (pc = "m_done" /\ mg = 0 /\ \A i \in DOMAIN ml : ml[i].w > 0 /\ ml
 
 EmitMean == pc = "m_done" =>
    PrintT("MEAN " \o ToJson([c |-> mc, g |-> mg, vals |-> [i \in DOMAIN ml |-> ValueList[i].ang],
-                             w |-> [i \in DOMAIN ml |-> ml[i].w], kind |-> mres.kind, m |-> mres.m]))
+                             w |-> [i \in DOMAIN ml |-> ml[i].w], kind |-> mres.kind, m |-> mres.m,
+                             off |-> [i \in DOMAIN ml |-> ml[i].off], k |-> [i \in DOMAIN ml |-> ml[i].k],
+                             s |-> [i \in DOMAIN ml |-> ml[i].s]]))
 
 \* ---- named constant values for cfg files ---------------------------------
 Turns3  == -3..3
